@@ -95,6 +95,15 @@ func (s *gkvp) SerializeValueTo(pc *PrintCtx) {
 }
 
 func (s Attrs) SerializeValueTo(pc *PrintCtx) {
+	if pc.jsonMode {
+		// the members of a group form a nested JSON object
+		pc.pcAppendByte('{')
+		pc.omitNextComma = true
+		_ = serializeAttrs(pc, s)
+		pc.omitNextComma = false
+		pc.pcAppendByte('}')
+		return
+	}
 	_ = serializeAttrs(pc, s)
 }
 
@@ -166,7 +175,11 @@ func serializeAttrs(pc *PrintCtx, kvps Attrs) (err error) { //nolint:revive
 		}
 
 		if pc.noColor {
-			pc.pcAppendComma()
+			if pc.omitNextComma {
+				pc.omitNextComma = false // first member of a nested JSON object
+			} else {
+				pc.pcAppendComma()
+			}
 		} else {
 			pc.pcAppendByte(' ')
 			ct.echoColorAndBg(pc, pc.clr, pc.bg)
